@@ -120,6 +120,8 @@ def show(n, depth=0):
         b = n.get('b')
         if n['m'] == '':
             return show(b, d)
+        while is_node(b) and strip_all(b)['k'] == 'Mem' and strip_all(b)['m'] == '':
+            b = strip_all(b)['b']        # member of an anonymous union/struct
         if is_node(b) and strip_all(b)['k'] == 'This':
             return 'this->' + n['m']
         return '%s%s%s' % (show(b, d), '->' if n.get('arrow') else '.', n['m'])
